@@ -1344,6 +1344,14 @@ fn resolve_types_and_aliases(
     let mut pass_count = 0usize;
     let max_passes = 100usize; // prevent infinite loops
 
+    let count_resolved = |types: &Vec<TypeDef>, aliases: &Vec<AliasDef>| {
+        types.iter().filter(|x| x.is_resolved()).count()
+            + aliases.iter().filter(|x| x.is_resolved()).count()
+    };
+
+    let mut last_resolved = 0usize;
+    let mut stalled_passes = 0usize;
+
     while pass_count < max_passes && !(types.is_resolved() && aliases.is_resolved()) {
         pass_count += 1;
 
@@ -1362,6 +1370,38 @@ fn resolve_types_and_aliases(
 
         types_report = types.analyze(Some(scope_rc.clone()));
         aliases_report = aliases.analyze(Some(scope_rc.clone()));
+
+        // every pass nests the symbols of the previous one, so recursive definitions grow
+        // geometrically: stop as soon as a pass resolves nothing new (what is left refers to
+        // something undefined and is reported by the last pass)
+        let resolved = count_resolved(types, aliases);
+
+        if resolved == last_resolved {
+            stalled_passes += 1;
+
+            if stalled_passes >= 2 {
+                break;
+            }
+        } else {
+            stalled_passes = 0;
+        }
+
+        last_resolved = resolved;
+    }
+
+    // make the analyzed definitions (not the ones registered before the last pass) visible to
+    // the rest of the program, e.g. to constructors that go through an alias
+    if pass_count > 0 {
+        let mut scope = Scope::new(Some(scope_rc.clone()));
+
+        for type_def in types.iter() {
+            scope.track_type_def(type_def);
+        }
+        for alias_def in aliases.iter() {
+            scope.track_alias_def(alias_def);
+        }
+
+        *scope_rc = Rc::new(scope);
     }
 
     (types_report, aliases_report)
